@@ -13,7 +13,17 @@ Tr == ndJsonDeserialize(IOEnv.TRACE)
 C == INSTANCE Cbor
 JT == INSTANCE JsonText
 
-SpecDecode(f, b) == CASE f = "cbor" -> C!Decode(b)
+M == INSTANCE Msgpack
+U == INSTANCE Ubjson
+B == INSTANCE Bson
+SpecDecode(f, b) == CASE f = "cbor" -> C!Decode(b) [] f = "msgpack" -> M!Decode(b) [] f = "ubjson" -> U!Decode(b) [] f = "bson" -> B!Decode(b)
+\* documented image of pushed data: UBJSON writes a byte string as an array strongly typed as uint8
+RECURSIVE BImage(_, _)
+BImage(f, v) ==
+  CASE f = "ubjson" /\ v[1] = "bstr" -> <<"arr", [k \in 1..Len(v[2]) |-> <<"uint", IF v[2][k] = 0 THEN <<>> ELSE <<v[2][k]>>>>]>>
+    [] v[1] = "arr" -> <<"arr", [k \in 1..Len(v[2]) |-> BImage(f, v[2][k])]>>
+    [] v[1] = "map" -> <<"map", [k \in 1..Len(v[2]) |-> <<v[2][k][1], BImage(f, v[2][k][2])>>]>>
+    [] OTHER -> v
 
 \* JSON image of the small scalar alphabet of MC_C08 (doc/ref: byte strings as base64url, doubles shortest round-trip)
 RECURSIVE JImage(_)
@@ -39,8 +49,9 @@ LineOk(t) ==
   \/ /\ t.out = "ok"
      /\ t.enc # "transcode-json"
      /\ IF t.enc \in {"json", "jsonpretty"} THEN JsonOk(t)
+        ELSE IF t.enc = "bson" /\ t.v[1] # "map" THEN TRUE        \* a BSON document is rooted in an object: anything else is a caller error
         ELSE LET r == SpecDecode(t.enc, t.bytes) IN
-             r[1] = "ok" /\ r[3] = Len(t.bytes) + 1 /\ Equiv(r[2], t.v)
+             r[1] = "ok" /\ r[3] = Len(t.bytes) + 1 /\ Equiv(r[2], BImage(t.enc, t.v))
 Init == l = 1
 Next == l <= Len(Tr) /\ LineOk(Tr[l]) /\ l' = l + 1
 Accepted == TLCGet("stats").diameter - 1 = Len(Tr)
